@@ -17,8 +17,13 @@ impl<const L: usize> Env<L> {
     /// assemble an environment around a given book (harness constructor; the cached level-2 data
     /// is what `Env::new` / `step` would have stored: the live book's)
     pub fn verif_from_book(step_size: Nanos, order_book: OrderBook<L>) -> Self {
+        // (through the constructor plus field assignments rather than a struct literal: a tree that
+        // adds a field to `Env` must still compile with this harness)
         let level_2_data = order_book.level_2_data();
-        Self { step_size, order_book, trade_vols: Vec::new(), transactions: Vec::new(), level_2_data, level_2_data_records: Level2DataRecords::new() }
+        let mut env = Self::new(0, 1, step_size, true);
+        core::mem::forget(core::mem::replace(&mut env.order_book, order_book));
+        core::mem::forget(core::mem::replace(&mut env.level_2_data, level_2_data));
+        env
     }
     /// overwrite the cached level-2 data (C19: arbitrary market data behind the arrays)
     pub fn verif_set_level_2_data(&mut self, d: Level2Data<L>) {
